@@ -89,6 +89,33 @@ def run_eager_shape(P, rep, rule="R-TABLE.eager"):
         rep.viol(rule, "EagerStore.store type", "-", "eager store is %s; the deferred-error rule needs a per-name Result (HashMap<String, Result<Arc<dyn Renderable>>>)" % ty)
 
 
+def run_eager_all_names(P, rep, rule="R-TABLE.eager"):
+    """EagerCompiler::compile gives every name the source lists an entry: the pipeline from names() to the store has no
+    filter / filter_map / skip / take / dedup / retain step and does not look at the text to decide whether to store it."""
+    from origins import SelfOrigins
+    fns = [f for f in P.fns.values() if f.kind == "method" and f.item_name == "compile" and f.id.startswith("liquid_core::partials::eager::")]
+    if len(fns) != 1:
+        rep.anchor_missing(rule, "EagerCompiler::compile")
+        return
+    fn = P.view(fns[0])
+    lasts = []
+    for body, _ in SelfOrigins(P, fn, seed={}).all_bodies():
+        for bi, t in P.calls(body):
+            if t.get("f") and not t["f"]["krate"].startswith("liquid"):
+                lasts.append((t["f"]["id"].rsplit("::", 1)[1], t["line"], body))
+    bad = [(l, line, b) for l, line, b in lasts if l in ("filter", "filter_map", "skip", "take", "skip_while", "take_while", "step_by", "dedup", "retain",
+                                                          "trim", "trim_start", "trim_end", "is_empty", "flat_map", "flatten", "find", "position")]
+    names = [l for l, _, _ in lasts]
+    if "names" not in [t["f"]["id"].rsplit("::", 1)[1] for body, _ in SelfOrigins(P, fn, seed={}).all_bodies() for bi, t in P.calls(body) if t.get("f")]:
+        rep.viol(rule, "EagerCompiler::compile names", P.where(fn), "compile does not enumerate PartialSource::names()")
+    elif bad:
+        l, line, b = bad[0]
+        rep.viol(rule, "EagerCompiler::compile all-names", P.where(b, line),
+                 "the eager pipeline uses `%s`: a listed partial can be left out of the store, so eager answers 'unknown' where lazy/on-demand compile it" % l)
+    else:
+        rep.ok(rule, "EagerCompiler::compile all-names", P.where(fn), "every listed name is compiled and stored (no filtering step: %s)" % sorted(set(names))[:8])
+
+
 def run_compile_never_fails(P, rep, rule="R-DEFER"):
     """PartialCompiler::compile returns Ok on every path: no `?`, no Err aggregate into _0."""
     n = 0
